@@ -9,6 +9,7 @@ import (
 	"fmt"
 	"io"
 	"math/big"
+	"os"
 	"reflect"
 	"sort"
 	"time"
@@ -75,6 +76,9 @@ func serixLeg(s *simrt.Sim, reencode bool) {
 	if e.decodeBroken {
 		classes = []string{"none"}
 	}
+	if e.allocProne {
+		classes = []string{"truncate", "flip-structural", "inflate-prefix", "flip-sampled"}
+	}
 	fr := newFaultRun(s, "serix.Decode", classes)
 	s.Logf("type=%s validate=%v class=%s huge=%v encoding(%d)=%x", e.name, validate, fr.class, fr.huge, len(b), clip(b))
 	var dst reflect.Value
@@ -96,6 +100,12 @@ func serixLeg(s *simrt.Sim, reencode bool) {
 		if reencode {
 			var n int
 			var ok bool
+			c0 := cpuNanos()
+			defer func() {
+				if d := cpuNanos() - c0; d > 50_000_000 && os.Getenv("CODEC_DEBUG") != "" {
+					fmt.Fprintf(os.Stderr, "SLOW %dms type=%s %s in=%x\n", d/1e6, e.name, desc, clip(in))
+				}
+			}()
 			if panicked, _ := hx.Try(func() { n, ok = decode(in)() }); panicked {
 				s.Probe("decode-panicked(see C02)")
 				return
@@ -167,7 +177,9 @@ type streamTarget struct {
 	build func(s *simrt.Sim) (data []byte, marks []mark, read func(r io.ReadSeeker) error)
 }
 
-func lenMark(lt int, kind string) []mark { return []mark{{off: 0, w: lenTypeWidth[lt], kind: kind}} }
+func lenMark(lt int, kind string) []mark {
+	return []mark{{off: 0, w: lenTypeWidth[lt], kind: kind, alloc: kind == "len"}}
+}
 
 func written(f func(w *stream.ByteBuffer) error) []byte {
 	buf := stream.NewByteBuffer()
@@ -196,7 +208,7 @@ var streamTargets = []streamTarget{
 			return written(func(w *stream.ByteBuffer) error { return stream.Write(w, genBits(s, 64)) }), nil,
 				func(r io.ReadSeeker) error { _, err := stream.Read[uint64](r); return err }
 		case 2:
-			return written(func(w *stream.ByteBuffer) error { return stream.Write(w, true) }), []mark{{0, 1, "bool"}},
+			return written(func(w *stream.ByteBuffer) error { return stream.Write(w, true) }), []mark{{off: 0, w: 1, kind: "bool"}},
 				func(r io.ReadSeeker) error { _, err := stream.Read[bool](r); return err }
 		default:
 			var a A36
@@ -321,7 +333,7 @@ type deserOp struct {
 
 var seriLen = []serializer.SeriLengthPrefixType{serializer.SeriLengthPrefixTypeAsByte, serializer.SeriLengthPrefixTypeAsUint16, serializer.SeriLengthPrefixTypeAsUint32}
 
-func genDeserOp(s *simrt.Sim) deserOp {
+func genDeserOp(s *simrt.Sim, first bool) deserOp {
 	mode := serializer.DeSeriModeNoValidation
 	if s.Choose(2) == 1 {
 		mode = serializer.DeSeriModePerformValidation
@@ -349,7 +361,7 @@ func genDeserOp(s *simrt.Sim) deserOp {
 			func(d *serializer.Deserializer) { var v float32; d.ReadNum(&v, passErr) }}
 	case 3:
 		x := s.Choose(2) == 1
-		return deserOp{"ReadBool", func(se *serializer.Serializer) []mark { se.WriteBool(x, passErr); return []mark{{0, 1, "bool"}} },
+		return deserOp{"ReadBool", func(se *serializer.Serializer) []mark { se.WriteBool(x, passErr); return []mark{{off: 0, w: 1, kind: "bool"}} },
 			func(d *serializer.Deserializer) { var v bool; d.ReadBool(&v, passErr) }}
 	case 4:
 		x := byte(genBits(s, 8))
@@ -373,6 +385,9 @@ func genDeserOp(s *simrt.Sim) deserOp {
 			func(d *serializer.Deserializer) { d.ReadBytesInPlace(make([]byte, len(x)), passErr) }}
 	case 9:
 		w := s.Choose(3)
+		if !first && w == 2 {
+			w = 1 // a 4-byte allocation prefix behind a faulted variable-length field reads random gigabytes
+		}
 		x := genRawBytes(s, s.Choose(9))
 		minL, maxL := 0, 0
 		if s.Choose(2) == 1 {
@@ -380,7 +395,7 @@ func genDeserOp(s *simrt.Sim) deserOp {
 		}
 		return deserOp{"ReadVariableByteSlice", func(se *serializer.Serializer) []mark {
 			se.WriteVariableByteSlice(x, seriLen[w], passErr, minL, maxL)
-			return []mark{{0, 1 << w, "len"}}
+			return []mark{{0, 1 << w, "len", true}}
 		}, func(d *serializer.Deserializer) { var v []byte; d.ReadVariableByteSlice(&v, seriLen[w], passErr, minL, maxL) }}
 	case 10:
 		w := s.Choose(3)
@@ -391,11 +406,11 @@ func genDeserOp(s *simrt.Sim) deserOp {
 		}
 		return deserOp{"ReadString", func(se *serializer.Serializer) []mark {
 			se.WriteString(x, seriLen[w], passErr, minL, maxL)
-			return []mark{{0, 1 << w, "len"}}
+			return []mark{{off: 0, w: 1 << w, kind: "len"}}
 		}, func(d *serializer.Deserializer) { var v string; d.ReadString(&v, seriLen[w], passErr, minL, maxL) }}
 	case 11:
 		x := s.Choose(70000)
-		return deserOp{"ReadPayloadLength", func(se *serializer.Serializer) []mark { se.WritePayloadLength(x, passErr); return []mark{{0, 4, "len"}} },
+		return deserOp{"ReadPayloadLength", func(se *serializer.Serializer) []mark { se.WritePayloadLength(x, passErr); return []mark{{off: 0, w: 4, kind: "len"}} },
 			func(d *serializer.Deserializer) { _, _ = d.ReadPayloadLength() }}
 	case 12:
 		w := s.Choose(3)
@@ -407,7 +422,7 @@ func genDeserOp(s *simrt.Sim) deserOp {
 		rules := &serializer.ArrayRules{Max: 8, ValidationMode: serializer.ArrayValidationModeLexicalOrdering | serializer.ArrayValidationModeNoDuplicates}
 		return deserOp{"ReadSequenceOfObjects", func(se *serializer.Serializer) []mark {
 			se.WriteSliceOfByteSlices(data, mode, seriLen[w], rules, passErr)
-			return []mark{{0, 1 << w, "count"}}
+			return []mark{{off: 0, w: 1 << w, kind: "count"}}
 		}, func(d *serializer.Deserializer) {
 			d.ReadSequenceOfObjects(func(b []byte) (int, error) {
 				if len(b) < 2 {
@@ -431,9 +446,9 @@ func genDeserOp(s *simrt.Sim) deserOp {
 		}
 		return deserOp{"ReadSliceOfObjects", func(se *serializer.Serializer) []mark {
 			se.WriteSliceOfObjects(seris, serializer.DeSeriModeNoValidation, nil, seriLen[w], rules, passErr)
-			ms := []mark{{0, 1 << w, "count"}}
+			ms := []mark{{off: 0, w: 1 << w, kind: "count"}}
 			for i := 0; i < cnt; i++ {
-				ms = append(ms, mark{1<<w + i*(tw+2), tw, "code"})
+				ms = append(ms, mark{off: 1<<w + i*(tw+2), w: tw, kind: "code"})
 			}
 			return ms
 		}, func(d *serializer.Deserializer) {
@@ -448,7 +463,7 @@ func genDeserOp(s *simrt.Sim) deserOp {
 		}
 		return deserOp{"ReadObject", func(se *serializer.Serializer) []mark {
 			se.WriteObject(t, serializer.DeSeriModeNoValidation, nil, nil, passErr)
-			return []mark{{0, tw, "code"}}
+			return []mark{{off: 0, w: tw, kind: "code"}}
 		}, func(d *serializer.Deserializer) {
 			var out serializer.Serializable
 			d.ReadObject(&out, mode, nil, den, tinySel(den), passErr)
@@ -461,9 +476,9 @@ func genDeserOp(s *simrt.Sim) deserOp {
 		return deserOp{"ReadPayload", func(se *serializer.Serializer) []mark {
 			se.WritePayload(t, serializer.DeSeriModeNoValidation, nil, nil, passErr)
 			if t == nil {
-				return []mark{{0, 4, "len"}}
+				return []mark{{off: 0, w: 4, kind: "len"}}
 			}
-			return []mark{{0, 4, "len"}, {4, 4, "code"}}
+			return []mark{{off: 0, w: 4, kind: "len"}, {off: 4, w: 4, kind: "code"}}
 		}, func(d *serializer.Deserializer) {
 			var out serializer.Serializable
 			d.ReadPayload(&out, mode, nil, tinySel(serializer.TypeDenotationUint32), passErr)
@@ -482,7 +497,7 @@ func faultDeserBody(s *simrt.Sim) {
 	se := serializer.NewSerializer()
 	var marks []mark
 	for i := 0; i < nops; i++ {
-		op := genDeserOp(s)
+		op := genDeserOp(s, i == 0)
 		base := se.Written()
 		for _, m := range op.write(se) {
 			m.off += base
@@ -529,7 +544,7 @@ func faultSOMapBody(s *simrt.Sim) {
 	m := serializableorderedmap.New[uint16, Name]()
 	cnt := s.Choose(4)
 	var marks []mark
-	marks = append(marks, mark{0, 4, "count"})
+	marks = append(marks, mark{off: 0, w: 4, kind: "count"})
 	off := 4
 	s.Atomic(func() {
 		for i := 0; i < cnt; i++ {
@@ -539,7 +554,7 @@ func faultSOMapBody(s *simrt.Sim) {
 				continue
 			}
 			m.Set(k, name)
-			marks = append(marks, mark{off + 2, 1, "len"})
+			marks = append(marks, mark{off: off + 2, w: 1, kind: "len"})
 			off += 2 + 1 + len(name)
 		}
 	})
